@@ -5,6 +5,7 @@
 #include "common/track.hpp"
 #include "common/seq.hpp"
 #include <variant>
+#include <initializer_list>
 #include <optional>
 #include <frg/optional.hpp>
 #include <frg/variant.hpp>
@@ -492,6 +493,25 @@ struct Sticky {
 };
 static_assert(std::is_trivially_copy_constructible_v<Sticky> && std::is_trivially_destructible_v<Sticky> && !std::is_trivially_copy_assignable_v<Sticky>);
 
+// which constructor an in-place construction selects: std::optional/std::variant direct-initialise (T(args...)); an element type
+// with an initializer_list constructor tells list-initialisation apart
+struct InitProbe {
+	int how, a, b;
+	InitProbe(std::initializer_list<int> l) : how(1), a(l.size() > 0 ? *l.begin() : -1), b(l.size() > 1 ? *(l.begin() + 1) : -1) {}
+	InitProbe(int x, int y) : how(2), a(x), b(y) {}
+	explicit InitProbe(int x) : how(3), a(x), b(0) {}
+	bool operator==(const InitProbe &o) const { return how == o.how && a == o.a && b == o.b; }
+};
+static void init_form_case(Rng &r) {
+	int x = (int)r.below(1000), y = (int)r.below(1000);
+	auto diff = [&](const char *what, const InitProbe &f, const InitProbe &s) {
+		if(!(f == s)) fail17("init-form", strf("%s(%d, %d) holds a value built by constructor %d holding (%d, %d); the standard type holds one built by constructor %d holding (%d, %d)", what, x, y, f.how, f.a, f.b, s.how, s.a, s.b));
+	};
+	{ frg::optional<InitProbe> f; std::optional<InitProbe> s; f.emplace(x, y); s.emplace(x, y); diff("optional::emplace", *f, *s); f.emplace(x); s.emplace(x); diff("optional::emplace(one argument)", *f, *s); }
+	{ frg::variant<int, InitProbe> f; std::variant<std::monostate, int, InitProbe> s; f.emplace<InitProbe>(x, y); s.emplace<2>(x, y); diff("variant::emplace<T>", f.get<InitProbe>(), std::get<2>(s)); }
+	count("init_form_cases");
+}
+
 static void sticky_case(Rng &r, std::string &trace) {
 	frg::optional<Sticky> fa, fb; std::optional<Sticky> sa, sb;
 	using FV = frg::variant<int, Sticky>; using SV = std::variant<std::monostate, int, Sticky>;
@@ -561,7 +581,7 @@ int main(int argc, char **argv) {
 			if(!want_case(i)) { r.next(); continue; }
 			begin_case("sticky", i);
 			Rng rr(r.next()); std::string trace;
-			guarded(g_prop.c_str(), [&] { sticky_case(rr, trace); });
+			guarded(g_prop.c_str(), [&] { sticky_case(rr, trace); if(i % 64 == 0) init_form_case(rr); });
 			if(!rec.violations.empty()) break;
 			note_distinct(mix(78, hash_str(trace)));
 		}
